@@ -24,6 +24,19 @@ def _lib_error_cls():
     return VerifLibError
 
 
+class CustomCoercibleError(Exception):
+    """the documented way of writing one's own error: any exception with a coerce_value method (no path / locations attributes)"""
+    def __init__(self, message):
+        super().__init__(message)
+        self.message = message
+
+    def coerce_value(self, *_args, path=None, locations=None, **_kwargs):
+        locs = []
+        for l in locations or []:
+            locs.append(l.collect_value() if hasattr(l, "collect_value") else l)
+        return {"message": self.message, "path": path, "locations": locs, "extensions": {"custom": True}}
+
+
 class RaisingMarker:
     """attribute-based object whose attribute `d` is a property raising KeyError"""
     def __init__(self, **kw):
@@ -229,6 +242,8 @@ class World:
                         raise NotImplementedError
                     if shape == 2:
                         raise KeyError(("boom", 7))
+                    if shape == 3:
+                        raise CustomCoercibleError("custom@" + "/".join(path))
                     raise RuntimeError("boom@" + "/".join(path))
                 if r == "raiseLib":
                     raise lib_error("lib@" + "/".join(path), {"code": "/".join(path)})
